@@ -5,7 +5,8 @@ Model of the modularity optimisers (property C06):
                         including the scratch array `cluster_weights` and its resets and the `std::set`
                         of neighbouring clusters (iterated in increasing order);
 * `refineCore`        = `sknetwork/clustering/leiden_core.pyx: optimize_refine_core`; the value of
-                        `rand()` at each accepted move is an explicit oracle argument;
+                        `rand()` at each accepted move is an explicit oracle argument (the optional `seed`
+                        argument of the kernel only selects the stream through `srand`);
 * `preProcess`        = `Louvain._pre_processing` (shuffle_nodes = False): `get_adjacency` with
                         `force_directed` for Dugué, node weights per modularity kind, `directed2undirected`,
                         normalisation to total weight 1;
@@ -241,26 +242,52 @@ def Level.graph (lv : Level) : Graph Rat where
 def blockDir (nRow : Nat) (B : Nat → Nat → Rat) (i j : Nat) : Rat :=
   if i < nRow then (if j < nRow then 0 else B i (j - nRow)) else 0
 
+/-- the adjacency matrix a modularity kind works on and its size: `get_adjacency(input_matrix,
+    force_directed = (kind is Dugué), force_bipartite)` -/
+def kindAdj (kind : Kind) (nRow nCol : Nat) (B : Nat → Nat → Rat) (forceBip : Bool) : Nat × (Nat → Nat → Rat) :=
+  let bip := forceBip || nRow != nCol
+  if bip then (nRow + nCol, if kind == .dugue then blockDir nRow B else blockAdj nRow B) else (nRow, B)
+
+/-- node weights per modularity kind (`out_weights`, `in_weights`) -/
+def kindWeights (kind : Kind) (n : Nat) (A : Nat → Nat → Rat) : Except PyErr ((Nat → Rat) × (Nat → Rat)) :=
+  match kind with
+  | .potts => (match getProbs n .uniform A with
+      | .error e => .error e
+      | .ok o => .ok (o, o))
+  | .newman => (match getProbs n .degree A with
+      | .error e => .error e
+      | .ok o => .ok (o, o))
+  | .dugue => (match getProbs n .degree A with
+      | .error e => .error e
+      | .ok o => (match getProbs n .degree (fun i j => A j i) with
+          | .error e => .error e
+          | .ok i => .ok (o, i)))
+  | .other => .error .valueError
+
+/-- `A + Aᵀ` -/
+def symm (A : Nat → Nat → Rat) (i j : Nat) : Rat := A i j + A j i
+
+/-- `directed2undirected(adjacency)` (scipy's `+=` stores only the non-zero sums) divided by its total, with the
+    node weights: the first level -/
+def symLevel (n : Nat) (A : Nat → Nat → Rat) (out inn : Nat → Rat) : Level :=
+  let total := sumTo n fun i => sumTo n (symm A i)
+  { n := n,
+    rows := tab n fun i => ((List.range n).filter fun j => symm A i j != 0).map fun j => (j, symm A i j / total),
+    outW := tab n out, inW := tab n inn }
+
 /-- `Louvain._pre_processing(input_matrix, force_bipartite)` with `shuffle_nodes = False` -/
 def preProcess (kind : Kind) (nRow nCol nnz : Nat) (B : Nat → Nat → Rat) (forceBip : Bool) :
-    Except PyErr Level := do
-  if nnz == 0 then throw .valueError                       -- check_format
-  let bip := forceBip || nRow != nCol
-  let n := if bip then nRow + nCol else nRow
-  let A : Nat → Nat → Rat :=
-    if bip then (if kind == .dugue then blockDir nRow B else blockAdj nRow B) else B
-  let AT : Nat → Nat → Rat := fun i j => A j i
-  let (out, inn) ← (match kind with
-    | .potts => do let o ← getProbs n .uniform A; pure (o, o)
-    | .newman => do let o ← getProbs n .degree A; pure (o, o)
-    | .dugue => do let o ← getProbs n .degree A; let i ← getProbs n .degree AT; pure (o, i)
-    | .other => throw PyErr.valueError : Except PyErr ((Nat → Rat) × (Nat → Rat)))
-  -- directed2undirected: A + Aᵀ (scipy's `+=` stores only the non-zero sums), then division by the total
-  let sym : Nat → Nat → Rat := fun i j => A i j + A j i
-  let total := sumTo n fun i => sumTo n (sym i)
-  if total == 0 then throw .nonFinite
-  let rows := tab n fun i => ((List.range n).filter fun j => sym i j != 0).map fun j => (j, sym i j / total)
-  pure { n := n, rows := rows, outW := tab n out, inW := tab n inn }
+    Except PyErr Level :=
+  if nnz == 0 then .error .valueError                       -- check_format
+  else
+    let n := (kindAdj kind nRow nCol B forceBip).1
+    let A := (kindAdj kind nRow nCol B forceBip).2
+    match kindWeights kind n A with
+    | .error e => .error e
+    | .ok w =>
+      -- numpy divides by `adjacency.data.sum()` without raising
+      if (sumTo n fun i => sumTo n (symm A i)) == 0 then .error .nonFinite
+      else .ok (symLevel n A w.1 w.2)
 
 /-- `np.unique(labels, return_inverse=True)[1]` -/
 def uniqueInverse (labels : List Nat) : List Nat :=
@@ -327,9 +354,10 @@ def louvainLoop (res tolOpt tolAgg : Rat) (nAgg : Int) (coreFuel : Nat) :
     the labels of all nodes (rows then columns for a bipartite graph) and the logged increases.
     `res` and `tolOpt` are the values the kernel receives (already rounded to `float`). -/
 def louvainFit (kind : Kind) (res tolOpt tolAgg : Rat) (nAgg : Int) (nRow nCol nnz : Nat)
-    (B : Nat → Nat → Rat) (forceBip : Bool) (coreFuel : Nat) : Except PyErr (Option FitOut) := do
-  let lv ← preProcess kind nRow nCol nnz B forceBip
-  pure (louvainLoop res tolOpt tolAgg nAgg coreFuel (lv.n + 1) 0 lv (arange lv.n) [])
+    (B : Nat → Nat → Rat) (forceBip : Bool) (coreFuel : Nat) : Except PyErr (Option FitOut) :=
+  match preProcess kind nRow nCol nnz B forceBip with
+  | .error e => .error e
+  | .ok lv => .ok (louvainLoop res tolOpt tolAgg nAgg coreFuel (lv.n + 1) 0 lv (arange lv.n) [])
 
 /-! ### Leiden -/
 
@@ -359,7 +387,7 @@ def aggregateRefine (labels refined : List Nat) (lv : Level) : List Nat × Level
   (refinedToLabels labels refined, aggregate refined lv)
 
 def leidenLoop (res tolOpt tolAgg : Rat) (nAgg : Int) (coreFuel : Nat) :
-    Nat → Nat → Level → List Nat → List Nat → List Rat → List Nat → Option FitOut
+    Nat → Nat → Level → List Nat → List Nat → List Rat → List (List Nat) → Option FitOut
   | 0, _, _, _, _, _, _ => none
   | fuel+1, count, lv, labels, memb, incs, rands =>
     let count := count + 1
@@ -367,9 +395,9 @@ def leidenLoop (res tolOpt tolAgg : Rat) (nAgg : Int) (coreFuel : Nat) :
     | none => none
     | some (labels, inc) =>
       let labels := uniqueInverse labels
-      match leidenRefine lv res coreFuel labels rands with
+      match leidenRefine lv res coreFuel labels (rands.headD []) with
       | none => none
-      | some (refined, rands) =>
+      | some (refined, _) =>
         let refined := uniqueInverse refined
         let ar := aggregateRefine labels refined lv
         let stop := ar.2.n == 1 || decide (inc ≤ tolAgg) || decide ((count : Int) = nAgg)
@@ -377,13 +405,16 @@ def leidenLoop (res tolOpt tolAgg : Rat) (nAgg : Int) (coreFuel : Nat) :
           some { labels := memb.map fun x => labels.getD x 0, increases := incs ++ [inc] }
         else
           leidenLoop res tolOpt tolAgg nAgg coreFuel fuel count ar.2 ar.1
-            (memb.map fun x => refined.getD x 0) (incs ++ [inc]) rands
+            (memb.map fun x => refined.getD x 0) (incs ++ [inc]) rands.tail
 
-/-- `Leiden.fit`, same conventions as `louvainFit`; `rands` = the successive values of `rand()` -/
+/-- `Leiden.fit`, same conventions as `louvainFit`; `rands` = for every aggregation the successive values of
+    `rand()` inside `optimize_refine_core` (which `Leiden.fit` re-seeds at every aggregation) -/
 def leidenFit (kind : Kind) (res tolOpt tolAgg : Rat) (nAgg : Int) (nRow nCol nnz : Nat)
-    (B : Nat → Nat → Rat) (forceBip : Bool) (coreFuel : Nat) (rands : List Nat) :
-    Except PyErr (Option FitOut) := do
-  let lv ← preProcess kind nRow nCol nnz B forceBip
-  pure (leidenLoop res tolOpt tolAgg nAgg coreFuel (lv.n + 1) 0 lv (arange lv.n) (arange lv.n) [] rands)
+    (B : Nat → Nat → Rat) (forceBip : Bool) (coreFuel : Nat) (rands : List (List Nat)) :
+    Except PyErr (Option FitOut) :=
+  match preProcess kind nRow nCol nnz B forceBip with
+  | .error e => .error e
+  | .ok lv =>
+    .ok (leidenLoop res tolOpt tolAgg nAgg coreFuel (4 * lv.n + 16) 0 lv (arange lv.n) (arange lv.n) [] rands)
 
 end SkNet.Modularity
